@@ -8,7 +8,10 @@
 (* (ReadBlock on the observed block entry) is asked for its prediction: if it predicts exactly the       *)
 (* observed kind of failure through a named deviation the reason is "dev:<name>", otherwise              *)
 (* "unexplained".  D-conjuncts (DRIFT): writer-model flags / csize differ from the observed ones.         *)
-EXTENDS MpqBuild, Json, IOUtils, TLCExt
+(* The builder's option setters are events of their own (`Opt`): the trace drives the MpqBuildOpts machine (CallCrcs /   *)
+(* CallAttrs / CallListfile, OBuild, OList), so the option state build() saw -- sector checksums, attributes file,        *)
+(* listfile -- is what the MODEL derives from the order of the calls, not what the driver believes.                       *)
+EXTENDS MpqBuild, MpqBuildOpts, Json, IOUtils, TLCExt
 
 Rec == ndJsonDeserialize(IOEnv.TRACE)
 TrS == atoi(IOEnv.C01_S)            \* sector size of this trace shard (cfg: SectorSize <- TrS)
@@ -25,7 +28,7 @@ Secs(e) == [j \in 1..Len(e.secs) |-> [r |-> e.secs[j][1], st |-> e.secs[j][2], s
 AsFile(e) == [name |-> <<>>, len |-> e.len, cls |-> e.cls, method |-> e.method, enc |-> e.enc]
 \* the block entry as the reader sees it + the writer's ghost fields
 ObsBlock(e) == [pos |-> e.pos, csize |-> e.csize, fsize |-> e.fsize, flags |-> SeqToSet(e.flags),
-                secs |-> Secs(e), method |-> e.method, single |-> IsSingleUnit(e.len), crc |-> e.crc,
+                secs |-> Secs(e), method |-> e.method, single |-> IsSingleUnit(e.len), crc |-> oopt.crc,
                 key |-> KeyFor(<<>>, "FIX_KEY" \in SeqToSet(e.flags), e.pos, e.fsize)]
 
 LossyApplied(e) == LossySel(e.method) /\ AnyShrunk(Secs(e))
@@ -91,13 +94,23 @@ FileVerdict(e) ==
            pred == ReadBlock(b, <<>>)
        IN IF pred # "exact" /\ \A j \in 1..4 : (Exact(e, e.reads[j]) \/ Consistent(e, pred, e.reads[j]))
           THEN "dev:" \o DevName(b, pred, \E j \in 1..4 : e.reads[j][1] \notin {"ok", "panic", "hang"})
+          \* named deviation MpqBuild!DevZeroKeyTakenAsPlain: an encrypted sectored member whose key (reference hash of the
+          \* plain name, observed position and size) is exactly 0 does not read back -- what a reader that decides
+          \* "encrypted" by key # 0 produces (MC_MpqBuild_negzkey)
+          ELSE IF e.zname # <<>> /\ "ENCRYPTED" \in b.flags /\ ~b.single
+                  /\ FixKey(FileKey(e.zname), WFromNat(e.pos), WFromNat(e.fsize)) = <<0, 0>>
+               THEN "dev:zero-key-taken-as-plain"
           ELSE "unexplained"
 FileDrift(e) ==
   IF ~e.found THEN "none"
   ELSE LET f == AsFile(e)
-           mf == WriterFlags(f, e.crc, Secs(e))
+           mf == WriterFlags(f, oopt.crc, Secs(e))
        IN IF mf # SeqToSet(e.flags) THEN "writer-flags-differ-from-model"
-          ELSE IF WriterCsize(f, e.crc, Secs(e)) # e.csize THEN "writer-csize-differs-from-model"
+          ELSE IF WriterCsize(f, oopt.crc, Secs(e)) # e.csize THEN "writer-csize-differs-from-model"
+          \* key class "final key 0": the member the driver constructed for it really has the key 0 (MpqCrypto reference
+          \* hash of its plain name, observed position and size) -- otherwise the class was not reached in this archive
+          ELSE IF e.lencls = "zkey" /\ FixKey(FileKey(e.zname), WFromNat(e.pos), WFromNat(e.fsize)) # <<0, 0>>
+               THEN "zero-key-member-has-a-nonzero-key"
           ELSE IF \A j \in 1..4 : Exact(e, e.reads[j]) /\ ReadBlock(ObsBlock(e), <<>>) # "exact"
                THEN "model-predicts-failure-but-code-succeeds"
           ELSE "none"
@@ -106,17 +119,34 @@ AbsentVerdict(e) == IF e.hb.ver # <<>> THEN "hetbet-verifies-absent-name"
                     ELSE IF e.hb.classic >= 0 THEN "classic-table-resolves-absent-name"
                     ELSE IF \A j \in 1..4 : e.reads[j] = <<"notfound", "notfound">> THEN "ok" ELSE "absent-name-resolved"
 
+\* The listing conjunct: exactly the added names plus the internal special files THE ARCHIVE HOLDS (e.specials: the
+\* special names find_file resolves), every existing block listed once (e.nblk: block-table entries that exist), sizes =
+\* content lengths.  Which special files the archive should hold given the option calls is the model's business
+\* (MpqBuildOpts!Specials) and only DRIFT: the property does not say which options produce which special file.
 ListOk(e) ==
   /\ e.res = "ok"
-  /\ SeqToSet(e.names) = SeqToSet(e.added) \cup {"(listfile)"} \cup (IF e.attrs THEN {"(attributes)"} ELSE {})
+  /\ SeqToSet(e.names) = SeqToSet(e.added) \cup SeqToSet(e.specials)
   /\ Len(e.names) = Cardinality(SeqToSet(e.names))
+  /\ Len(e.names) = e.nblk
   /\ \A j \in 1..Len(e.names) : \A q \in 1..Len(e.added) : e.names[j] = e.added[q] => e.sizes[j] = e.alens[q]
 ListVerdict(e) ==
-  IF ListOk(e) THEN "ok"
+  IF LISTFILE \notin SeqToSet(e.specials) THEN "ok"        \* the archive carries no listfile: nothing is claimed
+  ELSE IF ListOk(e) THEN "ok"
   ELSE LET fl == SeqToSet(e.lfFlags) IN
        IF e.lfFsize > SectorSize /\ "COMPRESS" \notin fl THEN "dev:sectored-no-compress-flag(listfile)"
        ELSE IF "COMPRESS" \in fl /\ DecodeClass(e.method) # "ok" THEN "dev:codec:" \o CodecDevName(e.method) \o "(listfile)"
+       ELSE IF e.res = "ok" /\ \E n \in SeqToSet(e.specials) : n \notin SeqToSet(e.names)
+            THEN "listing-omits-a-special-file-of-the-archive"
+       ELSE IF e.res = "ok" /\ \E n \in SeqToSet(e.added) : n \notin SeqToSet(e.names)
+            THEN "listing-omits-an-added-name"
        ELSE "list-unexplained"
+\* model conformance of the option part: the special files the archive holds are the ones the option state predicts
+ListDrift(e) ==
+  IF oph # "built" THEN "list-without-accepted-build"
+  ELSE IF SeqToSet(e.specials) # Specials(oopt) THEN "special-files-differ-from-option-model"
+  ELSE IF LISTFILE \in SeqToSet(e.specials) /\ ListOk(e) /\ SeqToSet(e.names) # Listing(oopt, SeqToSet(e.added))
+       THEN "listing-differs-from-option-model"
+  ELSE "none"
 
 \* The same archive opened behind a non-zero archive offset (foreign prefix / user-data header): block positions are
 \* relative to the archive header (AbsPos), FIX_KEY keys use the relative position, so every file that read back exactly
@@ -148,6 +178,8 @@ Verdict(e) == CASE e.ev = "Reset"  -> (IF e.S = SectorSize THEN "ok" ELSE "shard
                 [] e.ev = "File"   -> FileVerdict(e)
                 [] e.ev = "Absent" -> AbsentVerdict(e)
                 [] e.ev = "List"   -> ListVerdict(e)
+                \* a setter call the option machine does not know, or one made after build()
+                [] e.ev = "Opt"    -> (IF <<e.call, e.arg>> \in OptCalls /\ oph = "config" THEN "ok" ELSE "unknown-option-call")
                 [] e.ev = "Embedded" -> EmbeddedVerdict(e)
                 [] e.ev = "Hang"   -> "hang:" \o e.call          \* a library call did not return (per-call watchdog)
                 \* the process running the case died (abort / OOM / signal).  Named deviation DevTableCompression
@@ -157,10 +189,22 @@ Verdict(e) == CASE e.ev = "Reset"  -> (IF e.S = SectorSize THEN "ok" ELSE "shard
                 [] OTHER           -> "unknown-event"
 
 TNone(n) == {1}
-Init == tl = 1 /\ BInitWith({<<>>}) /\ tfiles = <<>>
+\* the option machine, driven by the events (totalised: an event the machine has no enabled action for leaves it alone;
+\* Verdict / ListDrift report it)
+OptStep(e) ==
+  CASE e.ev = "Reset" -> oph' = "config" /\ oopt' = OptDefault /\ ocalls' = <<>> /\ olisted' = {}
+    [] e.ev = "Opt" /\ oph = "config" /\ <<e.call, e.arg>> \in OptCalls ->
+         (CASE e.call = "crcs"  -> CallCrcs(e.arg = "on")
+            [] e.call = "attrs" -> CallAttrs(e.arg)
+            [] OTHER            -> CallListfile(e.arg = "generate"))
+    [] e.ev = "Build" /\ e.res = "ok" /\ oph = "config" -> OBuild
+    [] e.ev = "List" /\ oph = "built" /\ oopt.listfile -> OList(SeqToSet(e.added))
+    [] OTHER -> UNCHANGED ovars
+Init == tl = 1 /\ BInitWith({<<>>}) /\ tfiles = <<>> /\ OInit
 Next == /\ tl <= Len(Rec)
         /\ tl' = tl + 1
         /\ UNCHANGED bvars
+        /\ OptStep(Rec[tl])
         /\ tfiles' = LET e == Rec[tl] IN
                      IF e.ev = "Reset" THEN <<>>
                      ELSE IF e.ev = "File"
@@ -172,6 +216,7 @@ Next == /\ tl <= Len(Rec)
            /\ (IF e.ev = "File" /\ FileDrift(e) # "none" THEN PrintT(<<"DRIFT", tl, FileDrift(e)>>) ELSE TRUE)
            /\ (IF e.ev = "Embedded" /\ e.open = "ok" /\ e.aoff # e.off THEN PrintT(<<"DRIFT", tl, "archive-offset-differs">>) ELSE TRUE)
            /\ (IF e.ev = "File" /\ HetBetDrift(e) # "none" THEN PrintT(<<"DRIFT", tl, HetBetDrift(e)>>) ELSE TRUE)
+           /\ (IF e.ev = "List" /\ ListDrift(e) # "none" THEN PrintT(<<"DRIFT", tl, ListDrift(e)>>) ELSE TRUE)
 
 Accepted == LET d == TLCGet("stats").diameter IN
             IF d - 1 = Len(Rec) THEN PrintT(<<"CONSUMED", Len(Rec)>>) ELSE Print(<<"TRACE_STUCK_AT", d>>, FALSE)
